@@ -75,6 +75,10 @@ type ChildResult struct {
 	Done      bool   `json:"done"`
 	Deadlock  bool   `json:"deadlock"`
 	Stuck     string `json:"stuck"`
+	// Edges are the lock-order pairs observed by the instrumented package sync
+	// on the registered locks; LockOps the number of observed operations.
+	Edges   []string `json:"edges"`
+	LockOps int64    `json:"lock_ops"`
 }
 
 // RunStress runs one scenario in a child process and observes it.
@@ -137,6 +141,7 @@ func RunStress(childTest string, f []string) []string {
 		deadlocks = 1
 		detail = res.Stuck
 	}
+	untabled := UntabledEdges(res.Edges)
 	why := "-"
 	switch {
 	case deadlocks > 0:
@@ -149,6 +154,11 @@ func RunStress(childTest string, f []string) []string {
 		why = "race:" + Sanitize(keys[0])
 	case res.Malformed > 0:
 		why = "malformed"
+	case len(untabled) > 0:
+		why = "tie:edge-not-in-table:" + Sanitize(strings.ReplaceAll(untabled[0], " ", ""))
+	}
+	if len(untabled) > 0 {
+		detail += " observed lock-order pairs missing from the extracted table: " + strings.Join(untabled, " ; ")
 	}
 	if len(keys) > 0 {
 		detail += " races: " + strings.Join(keys, " ; ")
@@ -160,8 +170,9 @@ func RunStress(childTest string, f []string) []string {
 	}
 
 	return []string{
-		vutil.Itoa(len(keys)), vutil.Itoa(panics), vutil.Itoa(deadlocks), vutil.Itoa(res.Malformed),
+		vutil.Itoa(len(keys)), vutil.Itoa(panics), vutil.Itoa(deadlocks), vutil.Itoa(res.Malformed), vutil.Itoa(len(untabled)),
 		vutil.Hex(why), vutil.Hex(detail), vutil.Itoa(res.Served), vutil.Itoa(res.AdminOps),
+		vutil.Itoa(len(res.Edges)), vutil.Itoa(int(res.LockOps)),
 	}
 }
 
